@@ -758,6 +758,7 @@ def N8_status_relation(ctx):
            f'writers of TxState.status: {sorted(got)}; expected {sorted(expected)}',
            what='every status writer is part of the transition relation; a new writer is new behaviour and must be triaged')
     rel = set()
+    rel_by = {}
     unknown = []
     for w in sorted(set().union(*[facts.owner_bodies(w0) for w0 in writers] or [set()])):
         f = ctx.fn(facts.by[w])
@@ -774,6 +775,8 @@ def N8_status_relation(ctx):
                     continue
                 for pre in eq:
                     rel.add((pre, post))
+                    for o in facts.owners(w):
+                        rel_by.setdefault(o, set()).add((pre, post))
     ctx.ob('N8', 'model::TxState.status', 'pre-state-known-at-every-write', not unknown,
            '; '.join(f'{site(f, e)} status:={variant_of(e.d["value"])} with no decided pre-state' for f, e in unknown[:4]),
            what='each status write must be control-dependent on the status it replaces (read under the same guard)')
@@ -782,6 +785,25 @@ def N8_status_relation(ctx):
     ctx.ob('N8', 'model::TxState.status', 'transition-relation', not extra and not missing,
            f'extra transitions {sorted(extra)}; missing transitions {sorted(missing)}',
            what='Finality has no successor and no state is skipped: e.g. Finality→Validating would let a committed transaction be re-validated and re-executed; Executed→Finality would skip validation')
+
+
+    # the same relation, function by function: each step of the protocol is taken by the function that owns it
+    by_fn = {
+        'execution_task': {('Initial', 'Executing'), ('Conflict', 'Executing')},
+        'next': {('Executed', 'Validating'), ('Unconfirmed', 'Validating')},
+        'execute_task': {('Executing', 'Conflict'), ('Executing', 'Executed'), ('Executed', 'Validating')},
+        'validate': {('Validating', 'Conflict'), ('Validating', 'Unconfirmed')},
+        'run_finality_loop': {('Unconfirmed', 'Finality')},
+    }
+    diffs = []
+    for fn_, want in sorted(by_fn.items()):
+        got_ = rel_by.get(fn_, set())
+        if got_ != want:
+            diffs.append(f'{fn_}: extra {sorted(got_ - want)} missing {sorted(want - got_)}')
+    if not unknown and got == expected:
+        ctx.ob('N8', 'model::TxState.status', 'transition-relation-per-function', not diffs, '; '.join(diffs),
+               what='next() turns both Executed and Unconfirmed claims into validation tasks (an Executed transaction that is never validated stops finality for good), '
+                    'execution_task starts only Initial/Conflict, execute_task and validate leave Executing / Validating, only the finality loop writes Finality')
 
 
 def N9_incarnation(ctx):
